@@ -19,6 +19,10 @@ type lineLimitReader struct {
 
 	// timeoutErr is the last timeout error returned by R, if any.
 	timeoutErr error
+
+	// readErr is the last error returned by R, lastByte the last octet read.
+	readErr  error
+	lastByte byte
 }
 
 func (r *lineLimitReader) Read(b []byte) (int, error) {
@@ -27,7 +31,11 @@ func (r *lineLimitReader) Read(b []byte) (int, error) {
 	}
 
 	n, err := r.R.Read(b)
+	if n > 0 {
+		r.lastByte = b[n-1]
+	}
 	if err != nil {
+		r.readErr = err
 		if te, ok := err.(interface{ Timeout() bool }); ok && te.Timeout() {
 			r.timeoutErr = err
 		}
